@@ -228,25 +228,25 @@ Fixpoint leaves (pfx : bytes) (l : list attr) : list (bytes * fval) :=
   | A k x :: t => leaves_v (dotted pfx k) x ++ leaves pfx t
   end.
 
-Definition k_time : bytes := [x74;x69;x6d;x65].
-Definition k_logger : bytes := [x6c;x6f;x67;x67;x65;x72].
-Definition k_level : bytes := [x6c;x65;x76;x65;x6c].
-Definition k_msg : bytes := [x6d;x73;x67].
-Definition k_caller_file : bytes := [x63;x61;x6c;x6c;x65;x72;x2e;x66;x69;x6c;x65].
-Definition k_caller_line : bytes := [x63;x61;x6c;x6c;x65;x72;x2e;x6c;x69;x6e;x65].
-Definition k_caller_function : bytes := [x63;x61;x6c;x6c;x65;x72;x2e;x66;x75;x6e;x63;x74;x69;x6f;x6e].
+Definition lk_time : bytes := [x74;x69;x6d;x65].
+Definition lk_logger : bytes := [x6c;x6f;x67;x67;x65;x72].
+Definition lk_level : bytes := [x6c;x65;x76;x65;x6c].
+Definition lk_msg : bytes := [x6d;x73;x67].
+Definition lk_caller_file : bytes := [x63;x61;x6c;x6c;x65;x72;x2e;x66;x69;x6c;x65].
+Definition lk_caller_line : bytes := [x63;x61;x6c;x6c;x65;x72;x2e;x6c;x69;x6e;x65].
+Definition lk_caller_function : bytes := [x63;x61;x6c;x6c;x65;x72;x2e;x66;x75;x6e;x63;x74;x69;x6f;x6e].
 
 (* time, logger iff named, level, msg, every leaf attribute of the normalised tree
    (each level sorted by key, last of equal keys wins), the caller iff it is on *)
 Definition fields_of (g : registry) (c : ecfg) (msg : bytes) (attrs : list attr) : list (bytes * fval) :=
-  (k_time, FQuoted (e_ts c))
-  :: (match e_name c with [] => [] | nm => [(k_logger, FQuoted nm)] end)
-  ++ [(k_level, FQuoted (level_string g (e_lvl c))); (k_msg, FQuoted msg)]
+  (lk_time, FQuoted (e_ts c))
+  :: (match e_name c with [] => [] | nm => [(lk_logger, FQuoted nm)] end)
+  ++ [(lk_level, FQuoted (level_string g (e_lvl c))); (lk_msg, FQuoted msg)]
   ++ leaves [] (norm_attrs attrs)
   ++ (match e_caller c with
       | None => []
       | Some (file, line, fn) =>
-          [(k_caller_file, FQuoted file); (k_caller_line, FBare (dec_of_Z line)); (k_caller_function, FQuoted fn)]
+          [(lk_caller_file, FQuoted file); (lk_caller_line, FBare (dec_of_Z line)); (lk_caller_function, FQuoted fn)]
       end).
 
 (* ---- the domain of the property ---- *)
